@@ -102,6 +102,13 @@ C["C20"] = ("Coq theorems over the counters as functions of the event history (c
             "Tie: histories with traffic, rejected requests, backend faults, limits and Stop against the real processor; the public stats are read after quiescence, checked against the "
             "equations and compared with the model run on the observed history.",
             "Upstream counters: conservation only (the refresh's own requests are not predicted); TCP processor counters via C05.", "DESIGN.md §4 C20")
+C["C02"] = ("Coq theorems over a transition system of one backend connection (sender check-then-enqueue and re-check, writer and reader selects on the quit latch, connection loss, Stop, "
+            "final drain as separate steps; a schedule is any interleaving): an invariant holds in every reachable state (no request lost, the writer never leaves with a request in its "
+            "hands, after the drain nothing awaits an answer and anything queued has a sender that will look again), hence whenever every thread has run to completion every request is "
+            "completed; no step completes a completed request again; the code as it was is refuted by two schedules (writer drops the request it holds; Send enqueues after the drain), both "
+            "repaired by fix commits. Tie: stress with connection resets, node restarts, host-list replacement and Stop against the real processor (no reply missing after 6 s, order, "
+            "Stop returns, no crash).",
+            "Tie by outcome, not by step (goroutine interleavings cannot be forced without instrumenting unguarded code); liveness assumes fairness.", "DESIGN.md §4 C02")
 checks = []
 for pid in sorted(C):
     text, note, ref = C[pid]
